@@ -147,6 +147,8 @@ def gen(rng, tier):
     # template analysis on the regenerated template terms
     for n in TNAMES:
         cases.append(dict(line="tmpl name=%s" % n, tags=["template-analysis"], nontrivial=True))
+        # the hole-site table: in which lexical contexts every interpolation site can be reached (reviewed: expect/c07_holesites.json)
+        cases.append(dict(line="tmplsites name=%s" % n, tags=["hole-site-table"], nontrivial=True))
     # naming correspondence
     alpha = ["a", "b", "c", "a-b", "b-c", "x.y", "a.b-c", "vsr", "vs", "ts", "pol", "0", "a--b"]
     for _ in range(400 if tier == "quick" else 5000):
@@ -173,8 +175,18 @@ def load_replay(obj):
 
 
 def judge(case, impl, model, spec):
-    if impl is None and not case["line"].startswith("tmpl "):
+    if impl is None and not case["line"].startswith("tmpl"):
         return dict(corr="missing output")
+    if case["line"].startswith("tmplsites "):
+        name = case["line"].split("name=", 1)[1].split()[0]
+        exp = json.load(open(os.path.join(vlib.VERIF, "expect", "c07_holesites.json"))).get(name)
+        got = dict(x.split("=", 1) for x in (model or "").split(",") if "=" in x)
+        if exp is None or not got:
+            return dict(corr="hole-site table: no expectation / no table for template %s (%r)" % (name, (model or "")[:100]))
+        diffs = ["%s: reviewed in [%s], now in [%s]" % (k, exp.get(k, "absent"), got.get(k, "absent")) for k in sorted(set(exp) | set(got)) if exp.get(k) != got.get(k)]
+        if diffs:
+            return dict(corr="hole-site table of %s changed (the lexical context a value is written in decides what its validator must guarantee): %s" % (name, "; ".join(diffs[:6])))
+        return dict(nontrivial=True)
     if case["line"].startswith("tmpl "):
         if model != "ok":
             return dict(corr="template analysis (all branch combinations, any number of iterations, any values of the expected classes): %s" % model)
